@@ -6,7 +6,7 @@ From Coq Require Import Ascii String List NArith Arith Bool.
 Import ListNotations.
 Require Import Laze.model.Base Laze.model.Env Laze.model.Ninja Laze.model.Ctx Laze.model.Generate
         Laze.model.Load Laze.model.Cache.
-Require Import Laze.proofs.CacheFacts Laze.proofs.CacheNarrow Laze.proofs.CacheInstance Laze.proofs.LoadFrame Laze.proofs.LoadNames.
+Require Import Laze.proofs.CacheFacts Laze.proofs.CacheNarrow Laze.proofs.CacheInstance Laze.proofs.LoadFrame Laze.proofs.LoadNames Laze.proofs.CacheOrder.
 Open Scope list_scope.
 
 Section C08.
@@ -46,6 +46,18 @@ Section C08.
                     In x (gr_builds r') /\ selects (ca_builders a) (bi_builder x) = true /\ selects (ca_apps a) (bi_binary x) = true) /\
          (forall t, In t (map show_stmt (gr_stmts g')) -> In t (map show_stmt (gr_stmts r)))).
   Proof. exact (hit_is_fresh_final H EV bd store). Qed.
+
+  (* ... and in ORDER: in global mode (no --partition, same -D list) what main selects from the hit's
+     result is, element by element, the build list of the run in an empty build directory — so ninja
+     targets and task executions come in the same order as without the cache. *)
+  Theorem C08_hit_builds_ordered : forall a k (w w' : world) r',
+    coherent w -> crun H EV bd store a k w = (w', OHit r') ->
+    forall c, s_cache _ _ _ (get_slot _ _ _ _ w (cis_local a)) = Some c ->
+    ca_le (c_args _ _ _ c) = ca_le a -> ca_define (c_args _ _ _ c) = ca_define a -> ca_partition a = None ->
+    ca_local a = None -> ca_local (c_args _ _ _ c) = None ->
+    forall g', snd (crun H EV bd store a 0 (fresh _ _ _ _ (w_tree _ _ _ _ w))) = ORegen g' ->
+    gr_builds g' = filter (fun x => selects (ca_builders a) (bi_builder x) && selects (ca_apps a) (bi_binary x)) (gr_builds r').
+  Proof. exact (hit_builds_ordered H EV bd store). Qed.
 
   (* With --partition the cache is only accepted for the same selection (same builders in the same
      order, same set of apps): a run with the same arguments in an empty build directory then
@@ -94,6 +106,7 @@ Section C08.
 End C08.
 Print Assumptions C08_reachable_coherent.
 Print Assumptions C08_hit_is_fresh.
+Print Assumptions C08_hit_builds_ordered.
 Print Assumptions C08_hit_with_partition.
 Print Assumptions C08_never_after_change.
 Print Assumptions C08_changed_file_invalidates.
